@@ -197,6 +197,11 @@ func C04(p *core.Program, r *core.Report) {
 		})
 	}
 	r.Analysed["declared_size_library_decoder_calls"] = nLib
+
+	// ---- "never loops/hangs for ever": feedback channels registered for the TCPCLv4 receive loop
+	nReg := checkRegisteredChannelsRemoved(p, r)
+	r.Min("channels registered for a service goroutine", 1)
+	r.Count("channels registered for a service goroutine", nReg)
 }
 
 // checkSegmentMruChain follows the peer-declared segment size to the buffer
@@ -802,4 +807,92 @@ func neverAbove(v, recv ssa.Value) bool {
 		}
 	}
 	return true
+}
+
+// checkRegisteredChannelsRemoved: a function that creates a channel, enters it into a registry (sync.Map field of its
+// receiver) so that a service goroutine can send to it, and is itself the reader of that channel, must take the entry
+// out again on every exit. An entry that outlives its reader keeps receiving: once the channel's buffer is full the
+// service goroutine blocks on it for ever, and with it everything that goroutine serves (for TCPCLv4: all incoming
+// messages of the session). Accepted: a `defer registry.Delete(sameKey)` registered unconditionally after the Store,
+// or a deferred closure whose every path calls that Delete.
+func checkRegisteredChannelsRemoved(p *core.Program, r *core.Report) int {
+	n := 0
+	for _, fn := range p.RepoFuncs() {
+		if fn.Blocks == nil {
+			continue
+		}
+		core.EachInstr(fn, func(in ssa.Instruction) {
+			st, ok := in.(*ssa.Call)
+			if !ok || core.CalleeName(st) != "sync.Map.Store" {
+				return
+			}
+			mk, isMk := core.Strip(core.Arg(st, 1)).(*ssa.MakeChan)
+			if !isMk {
+				// the channel may live in a local cell (captured by a closure)
+				if ld, isLd := core.Strip(core.Arg(st, 1)).(*ssa.UnOp); isLd {
+					if a, isA := ld.X.(*ssa.Alloc); isA {
+						for _, ref := range *a.Referrers() {
+							if s2, isS := ref.(*ssa.Store); isS {
+								if m2, isM := s2.Val.(*ssa.MakeChan); isM {
+									mk, isMk = m2, true
+								}
+							}
+						}
+					}
+				}
+				if !isMk {
+					return
+				}
+			}
+			_ = mk
+			owner, field, okF := core.FieldOwner(core.CallRecv(st))
+			if !okF {
+				return
+			}
+			n++
+			sameRegistry := func(v ssa.Value) bool {
+				o2, f2, ok2 := core.FieldOwner(v)
+				return ok2 && o2 == owner && f2 == field
+			}
+			removed := false
+			for _, blk := range fn.Blocks {
+				for _, i2 := range blk.Instrs {
+					d, isD := i2.(*ssa.Defer)
+					if !isD {
+						continue
+					}
+					// unconditional: every return passes this defer
+					uncond := true
+					for _, ret := range core.Returns(fn) {
+						if !core.MustPassBefore(ret, func(i ssa.Instruction) bool { return i == ssa.Instruction(d) }) {
+							uncond = false
+						}
+					}
+					if !uncond {
+						continue
+					}
+					if core.CalleeName(d) == "sync.Map.Delete" && sameRegistry(core.CallRecv(d)) && core.SameExpr(core.Arg(d, 0), core.Arg(st, 0)) {
+						removed = true
+					}
+					if mc, isMC := d.Common().Value.(*ssa.MakeClosure); isMC {
+						cl := mc.Fn.(*ssa.Function)
+						all := len(core.Returns(cl)) > 0
+						for _, ret := range core.Returns(cl) {
+							if !core.MustPassBefore(ret, func(i ssa.Instruction) bool {
+								c, ok := i.(ssa.CallInstruction)
+								return ok && core.CalleeName(c) == "sync.Map.Delete"
+							}) {
+								all = false
+							}
+						}
+						if all {
+							removed = true
+						}
+					}
+				}
+			}
+			r.Check(removed, "registered-channel/"+fname(fn)+"/"+owner.Obj().Name()+"."+field, "a channel entered into a registry for a service goroutine to send to is taken out again on every exit of the function that reads it (unconditional deferred Delete of the same key)", p.Pos(st.Pos()), "", "the entry can outlive the function that reads the channel: the service goroutine's send on it blocks for ever once the buffer is full, and the session stops processing incoming messages")
+		})
+	}
+	return n
 }
